@@ -30,6 +30,55 @@ CHECKS = {
     },
 }
 
+STORE_NOTE = 'Theorems are about the hand-written model coq/Store/Engine.v (record-level files; bytes via Store/Codec.v), tied to the code by differential execution only. DashMap, lru, memmap2, bincode, BufWriter and the file system are modelled, not verified; merge iteration order and timestamps are oracle inputs read back from the implementation; single-threaded (concurrency is C04). Merge orders are assumed to visit each index entry of a selected file exactly once.'
+
+CHECKS.update({
+    "C01": {
+        "text": "Machine-checked refinement proof (Coq 8.16): for every configuration and every script of set/get/delete/merge/"
+                "reopen/clock operations, the engine model's results equal those of a key-value map, no operation fails or "
+                "panics, and the invariant (index = latest value record of the log, counters = ground truth, hint files list "
+                "their data files) is preserved, by induction over the script with the directory's log as abstract state; the "
+                "model is tied to /repo by differential execution of ~600 generated scripts per run (results), with the map "
+                "itself as an independent oracle on the implementation.",
+        "design_ref": "DESIGN.md section 8, C01", "note": STORE_NOTE,
+        "technique": "Coq refinement proof (log-consistency invariant) + differential correspondence",
+    },
+    "C02": {
+        "text": "Machine-checked proof that any number of close/reopen cycles after any reachable history changes no key's value, "
+                "that recovery rebuilds the index entry-for-entry and the counters exactly, and that reopening issues only the "
+                "creation of a fresh active file; the pinned recovery (tombstones ignored) is kept as a refuted variant. "
+                "Differential runs with reopen cycles and backwards-stepping timestamps tie the model to /repo.",
+        "design_ref": "DESIGN.md section 8, C02", "note": STORE_NOTE,
+        "technique": "Coq proof (recovery = fold of the same step as writes) + differential correspondence",
+    },
+    "C05": {
+        "text": "Machine-checked proof that a merge pass, for every configuration (hence every threshold setting and every subset "
+                "the selection can produce) and every valid iteration order, succeeds, preserves the invariant and leaves every "
+                "key reading as before, immediately and after any number of reopen cycles; the selection is proved closed "
+                "downwards over files holding records; the pinned selection is refuted by the D2 witness. Differential runs "
+                "bracket every merge and reopen with reads of every key.",
+        "design_ref": "DESIGN.md section 8, C05", "note": STORE_NOTE,
+        "technique": "Coq proof (merge loop invariant over the log + prefix-drop lemma) + differential correspondence",
+    },
+    "C12": {
+        "text": "Machine-checked proof that opening the directory of any reachable state with all hint files removed recovers the "
+                "same index entry and value for every key as opening with them (hint files list exactly their data files' "
+                "records, an invariant of every operation including merges that roll over); differential runs delete the hint "
+                "files of real stores and compare reads and index dumps.",
+        "design_ref": "DESIGN.md section 8, C12", "note": STORE_NOTE,
+        "technique": "Coq proof (hint scan = data scan on listed files) + differential correspondence",
+    },
+    "C19": {
+        "text": "Machine-checked proof that in every reachable crash-free state each file's live/dead/dead-bytes counters equal "
+                "ground truth computed from the files and the index, that a counter row exists exactly for files holding "
+                "records, and that the checked decrement never underflows; proved once for the single step 'append a record' "
+                "that put, delete, both recovery scans and the merge loop share. Differential runs compare index and counters "
+                "after every operation and scan the real files independently at the end.",
+        "design_ref": "DESIGN.md section 8, C19", "note": STORE_NOTE,
+        "technique": "Coq proof (counting lemmas over the log) + differential correspondence + independent file scan",
+    },
+})
+
 NOT_YET = "not claimed yet: model/theorems for this property are not built in this revision (planned, DESIGN.md section 8)"
 
 
